@@ -419,3 +419,29 @@ def rules(ctx: Ctx) -> None:
     # ---- R01.12 (= R12.2, shared caches): what is reported for a statement is a function of the statement, the dialect and the configuration -
     # a parse cache or memo shared by all analyzers and keyed by the text alone answers with another dialect's tree
     _imp01(ctx, "C12", {"R12.2": "R01.12"}, key_filter=lambda o: o.key.startswith(("class-level-mutable", "analyzer-class-state", "memoised")))
+
+    # ---- R01.13 what the discovery routines find is registered as found: a loop over the tables of a FROM / JOIN clause calls add_read on every
+    # path through its body (a filter between discovery and registration - "the target listed again is not a source" - loses a table the
+    # statement reads)
+    n_reg = 0
+    for f in prog.funcs.values():
+        if not f.mod.name.startswith("sqllineage.core.parser"):
+            continue
+        for L_ in [n for n in prog.walk_fn(f) if isinstance(n, ast.For) and isinstance(n.target, ast.Name)]:
+            srcs_ = prog.value_sources(f, L_.iter)
+            basis = [v.value if isinstance(v, ast.Subscript) else v for v in ([L_.iter] + list(srcs_))]
+            if not any(isinstance(v, ast.Call) and isinstance(v.func, ast.Attribute) and v.func.attr == "_list_table_from_from_clause_or_join_clause" for b_ in basis for v in ast.walk(b_) if isinstance(b_, ast.AST)):
+                continue
+            regs = [k for k in ast.walk(L_) if isinstance(k, ast.Call) and isinstance(k.func, ast.Attribute) and k.func.attr == "add_read" and k.args and u(k.args[0]) == L_.target.id]
+            if not regs:
+                continue
+            n_reg += 1
+            fcfg = flow(prog, f).cfg
+            hdr = fcfg.node_for(L_)
+            rnodes = {fcfg.node_for(k) for k in regs}
+            starts = [b_ for b_ in fcfg.g.successors(hdr) if fcfg.g[hdr][b_].get("label") and fcfg.g[hdr][b_]["label"][1] is True] if hdr is not None else []
+            every = hdr is not None and None not in rnodes and bool(starts) and not any(b_ not in rnodes and fcfg.reach(b_, hdr, avoid=rnodes) for b_ in starts)
+            ctx.touched(f)
+            ctx.ob("R01.13", f"discovered-tables-registered-unconditionally:{f.owner}", every, loc(f.mod, L_),
+                   f"`for {L_.target.id} in {u(L_.iter)[:50]}`: " + ("every table found is add_read" if every else "some path through the loop body skips add_read for a table that was found in the clause"))
+    ctx.floor("loops that register the tables of a FROM / JOIN clause", n_reg, 1)
